@@ -1,4 +1,5 @@
 #include "slu_mt_@p@defs.h"
+extern @R@ @p@langs(char *, SuperMatrix *);   /* no prototype in the library headers */
 int_t g_k, g_m; @R@ g_ret; extern int g_n_malloc, g_n_free;
 char in_norm[2]; SuperMatrix in_A; NCformat in_Astore; int_t in_colptr[CAP+1], in_rowind[NZ]; @T@ in_val[NZ];
 void h_langs(void) {
